@@ -1,7 +1,7 @@
 (* Props/C04.v — property theorems only; proofs in Proofs/C04Binding.v. *)
 From Coq Require Import List NArith.
 From Cedar Require Import Lib.Bytes Lib.Sym gen.Consts Model.Frame Model.FrameSpec
-     Proofs.FrameBase Proofs.C02Prefix Proofs.C04Binding Proofs.C04sitesModel.
+     Proofs.FrameBase Proofs.C02Prefix Proofs.C04Binding Proofs.C04ReadOn Proofs.C04sitesModel.
 Import ListNotations.
 Local Open Scope N_scope.
 
@@ -119,6 +119,48 @@ Theorem C04_finalize_before_key_is_neutral :
   forall (s : stream) (k iv : bytes), set_key (finalize_digests s) k iv = set_key s k iv.
 Proof. exact set_key_after_finalize. Qed.
 Print Assumptions C04_finalize_before_key_is_neutral.
+
+(* ... and not only the first: a receiver that KEEPS READING after the refusal (a receive loop
+   that skips a bad frame, a follow-on command reader) accepts none of the frames of the
+   sender's whole protected history, in any order, with any repetition, with headers and IVs
+   rewritten at will.  The refused first frame leaves the receiver either untouched or
+   "poisoned" (first-frame flag frozen, counter still 0: Model/Frame.v fail_decrypt, which is
+   what decryptDataWithAAD leaves behind), and neither state opens a header-only frame. *)
+Theorem C04_no_data_after_tamper_reading_on :
+  forall (opsA opsB : list cop) (A B : stream) (k ivA ivB : bytes) (A1 B1 : stream)
+         (tr : list (bytes * N)) (fs : list frame) (A2 : stream) (fs' : list frame),
+    clear_run new_stream opsA = Some A -> clear_run new_stream opsB = Some B ->
+    set_key A k ivA = SOk A1 -> set_key B k ivB = SOk B1 ->
+    (sent_bytes opsA <> recvd_bytes opsB \/ recvd_bytes opsA <> sent_bytes opsB) ->
+    sent A1 tr fs A2 ->
+    (forall g ivo ct, In g fs' -> f_body g = Ct ivo ct -> In ct (cts_of fs)) ->
+    snd (recv_frames_all B1 fs') = [].
+Proof. exact no_data_after_tamper_reading_on. Qed.
+Print Assumptions C04_no_data_after_tamper_reading_on.
+
+(* non-vacuity: one cleartext byte altered in transit, the sender then sends three protected
+   frames and the receiver reads all three: nothing is delivered (and the same three frames ARE
+   delivered when the byte is left alone) *)
+Example C04_reading_on_example :
+  let opsA := [CSend [x41; x42] 1] in
+  let run opsB :=
+    match clear_run new_stream opsA, clear_run new_stream opsB with
+    | Some A, Some B =>
+        match set_key A (repeat x01 32) (repeat x07 16), set_key B (repeat x01 32) (repeat x09 16) with
+        | SOk A1, SOk B1 =>
+            match send_frame A1 [x44] 1 with
+            | (A2, SOk f1) => match send_frame A2 [x45] 1 with
+              | (A3, SOk f2) => match send_frame A3 [x46] 1 with
+                | (_, SOk f3) => Some (snd (recv_frames_all B1 [f1; f2; f3]))
+                | _ => None end
+              | _ => None end
+            | _ => None end
+        | _, _ => None
+        end
+    | _, _ => None
+    end in
+  run [CRecv 1 [x41; x43]] = Some [] /\ run [CRecv 1 [x41; x42]] = Some [([x44], 1); ([x45], 1); ([x46], 1)].
+Proof. vm_compute. split; reflexivity. Qed.
 
 (* ------------------------------------------------------------------------------------------
    The premise that makes the theorems above be about cedar's handshakes, as obligations over
